@@ -315,6 +315,7 @@ func checkC04(e *Engine, r *Report) {
 						}
 					}
 					applied, why := false, ""
+					forwarded, recorded, told := false, false, false
 					if zone != nil {
 						seen := map[ssa.Value]bool{}
 						var walk func(v ssa.Value, d int)
@@ -327,11 +328,13 @@ func checkC04(e *Engine, r *Report) {
 								switch x := ref.(type) {
 								case *ssa.Return:
 									applied, why = true, "forwarded to the caller"
+									forwarded = true
 								case *ssa.Phi:
 									walk(x, d+1)
 								case *ssa.Store:
 									if fieldOfAddr(x.Addr) == fMemZone {
 										applied, why = true, "recorded in the grant"
+										recorded = true
 									}
 									if al, ok := x.Addr.(*ssa.Alloc); ok && x.Val == v {
 										for _, r2 := range *al.Referrers() {
@@ -343,11 +346,13 @@ func checkC04(e *Engine, r *Report) {
 								case *ssa.Call:
 									if isCallOfObj(x, setZone) {
 										applied, why = true, "recorded in the grant (SetMemoryZone)"
+										recorded = true
 									}
 									if callObj(x.Common()) == memsetString {
 										for _, r3 := range *x.Referrers() {
 											if isCallOfObj(r3, setMems) {
 												applied, why = true, "told to the runtime"
+												told = true
 											}
 										}
 									}
@@ -357,6 +362,33 @@ func checkC04(e *Engine, r *Report) {
 						walk(zone, 0)
 					}
 					r.Check("R1:zone-applied@"+site, "data-flow zone applied", "the zone assigned to the requester by "+name+" is forwarded, recorded in the grant or told to the runtime", e.InstrPos(in), fn, applied, why, true)
+					// topology-aware: a zone that is not handed on to the caller is both recorded in the grant and told to the
+					// runtime — here, or by an applyGrant that every caller runs afterwards
+					if pkg == pkgTA && zone != nil && !forwarded {
+						applyG := e.Fn(pkgTA, "policy.applyGrant")
+						var toldLater func(f *ssa.Function, d int) bool
+						toldLater = func(f *ssa.Function, d int) bool {
+							cs := e.Callers(TopParent(f))
+							if len(cs) == 0 || d > 3 {
+								return false
+							}
+							for _, c := range cs {
+								var asm Assumption
+								if v := c.Call.Value(); v != nil {
+									asm = callSucceeded(v)
+								}
+								p := FindPath(PathQuery{Fn: c.Fn, From: c.Call.(ssa.Instruction), Assume: asm, Block: func(x ssa.Instruction) bool { return e.CallReaches(x, fset(applyG), 3) },
+									Target: func(x ssa.Instruction) bool { ret, ok := x.(*ssa.Return); return ok && e.maySucceed(ret) }})
+								if p != nil && !toldLater(c.Fn, d+1) {
+									return false
+								}
+							}
+							return true
+						}
+						okBoth := recorded && (told || toldLater(fn, 0))
+						r.Check("R1:zone-recorded-and-told@"+site, "data-flow zone applied", "a zone the function keeps (does not return) is recorded in the grant and told to the runtime, directly or by the applyGrant every caller runs afterwards", e.InstrPos(in), fn, okBoth,
+							fmt.Sprintf("recorded=%v told-here=%v", recorded, told), true)
+					}
 				}
 			})
 		}
